@@ -49,6 +49,9 @@ func (a *Analysis) classifyErr(v ssa.Value) errClass {
 					if hasError && !other {
 						return errClass{Kind: "fresh", Desc: "&" + n.Obj().Name() + "{…}"}
 					}
+					if c, ok := a.kindError(al, n, ms); ok {
+						return c
+					}
 				}
 			}
 		}
@@ -206,6 +209,231 @@ func (a *Analysis) matches(v ssa.Value, g *ssa.Global) (bool, string) {
 }
 
 // ruleS1: the three sentinels are distinct variables, each assigned once, by its declaration, a fresh error.
+// kindIsField analyses the Is method of *T: if it is exactly
+//
+//	func (e *T) Is(target error) bool { t, ok := target.(*T); return ok && t.F == e.F }
+//
+// (one comma-ok assertion of the target to *T, one equality of field F of the two values, no
+// call, no store; it returns false, that equality, or a φ of the two), errors.Is(x, y) between
+// values of this type holds exactly when their F fields are equal.  Returns F.
+func (a *Analysis) kindIsField(n *types.Named, ms *types.MethodSet) (int, bool) {
+	if a.kindIs == nil {
+		a.kindIs = map[*types.Named]int{}
+	}
+	if f, done := a.kindIs[n]; done {
+		return f, f >= 0
+	}
+	a.kindIs[n] = -1
+	var isM *ssa.Function
+	for i := 0; i < ms.Len(); i++ {
+		switch ms.At(i).Obj().Name() {
+		case "Is":
+			isM = a.P.SSA.MethodValue(ms.At(i))
+		case "As", "Unwrap":
+			return -1, false
+		}
+	}
+	if isM == nil || len(isM.Blocks) == 0 || len(isM.Params) != 2 {
+		return -1, false
+	}
+	recv := isM.Params[0]
+	var ta *ssa.TypeAssert
+	var eq *ssa.BinOp
+	for _, b := range isM.Blocks {
+		for _, in := range b.Instrs {
+			switch x := in.(type) {
+			case *ssa.TypeAssert:
+				if ta != nil || !x.CommaOk || x.X != ssa.Value(isM.Params[1]) || !types.Identical(x.AssertedType, recv.Type()) {
+					return -1, false
+				}
+				ta = x
+			case *ssa.BinOp:
+				if x.Op != token.EQL || eq != nil {
+					return -1, false
+				}
+				eq = x
+			case ssa.CallInstruction, *ssa.Store, *ssa.MapUpdate, *ssa.Send, *ssa.Go, *ssa.Defer, *ssa.Panic:
+				return -1, false
+			case *ssa.Return:
+				for _, res := range x.Results {
+					if !boolFrom(res, func(v ssa.Value) bool { return eq != nil && v == ssa.Value(eq) }, 0) {
+						return -1, false
+					}
+				}
+			}
+		}
+	}
+	if ta == nil || eq == nil {
+		return -1, false
+	}
+	// the two operands: field F of the receiver and field F of the asserted value
+	fieldOf := func(v ssa.Value) (ssa.Value, int, bool) {
+		ld, ok := v.(*ssa.UnOp)
+		if !ok || ld.Op != token.MUL {
+			return nil, 0, false
+		}
+		fa, ok := ld.X.(*ssa.FieldAddr)
+		if !ok {
+			return nil, 0, false
+		}
+		return fa.X, fa.Field, true
+	}
+	bx, fx, okx := fieldOf(eq.X)
+	by, fy, oky := fieldOf(eq.Y)
+	if !okx || !oky || fx != fy {
+		return -1, false
+	}
+	isAsserted := func(v ssa.Value) bool {
+		ex, ok := v.(*ssa.Extract)
+		return ok && ex.Tuple == ssa.Value(ta) && ex.Index == 0
+	}
+	if !(bx == ssa.Value(recv) && isAsserted(by) || by == ssa.Value(recv) && isAsserted(bx)) {
+		return -1, false
+	}
+	// the equality is only evaluated where the assertion succeeded
+	okEx := false
+	for _, ref := range *ta.Referrers() {
+		if ex, isEx := ref.(*ssa.Extract); isEx && ex.Index == 1 {
+			for _, r2 := range *ex.Referrers() {
+				if ifi, isIf := r2.(*ssa.If); isIf && ifi.Block().Succs[0].Dominates(eq.Block()) {
+					okEx = true
+				}
+			}
+		}
+	}
+	if !okEx {
+		return -1, false
+	}
+	a.kindIs[n] = fx
+	return fx, true
+}
+
+// boolFrom: v is the constant false, a value accepted by leaf, or a φ of such values.
+func boolFrom(v ssa.Value, leaf func(ssa.Value) bool, depth int) bool {
+	if depth > 4 {
+		return false
+	}
+	if c, ok := v.(*ssa.Const); ok && c.Value != nil && c.Value.Kind() == constant.Bool {
+		return !constant.BoolVal(c.Value)
+	}
+	if leaf(v) {
+		return true
+	}
+	if phi, ok := v.(*ssa.Phi); ok {
+		for _, e := range phi.Edges {
+			if !boolFrom(e, leaf, depth+1) {
+				return false
+			}
+		}
+		return true
+	}
+	return false
+}
+
+// allocField: the one constant integer stored into field f of the freshly allocated struct al.
+func allocField(al *ssa.Alloc, f int) (int64, bool) {
+	n := 0
+	var k int64
+	for _, ref := range *al.Referrers() {
+		fa, ok := ref.(*ssa.FieldAddr)
+		if !ok || fa.Field != f {
+			continue
+		}
+		for _, r2 := range *fa.Referrers() {
+			st, ok := r2.(*ssa.Store)
+			if !ok || st.Addr != ssa.Value(fa) {
+				continue
+			}
+			c, isC := intConst(st.Val)
+			if !isC {
+				return 0, false
+			}
+			k = c
+			n++
+		}
+	}
+	if n == 0 {
+		return 0, true // never assigned: the zero value
+	}
+	return k, n == 1
+}
+
+// sentinelAlloc: the &T{…} a sentinel variable is initialised with by its declaration.
+func (a *Analysis) sentinelAlloc(g *ssa.Global) *ssa.Alloc {
+	var ws []Write
+	for _, w := range a.Ef.Writes[g] {
+		if !w.Test {
+			ws = append(ws, w)
+		}
+	}
+	if len(ws) != 1 || !ws[0].Synth || ws[0].Kind != "store" {
+		return nil
+	}
+	v := ws[0].Instr.(*ssa.Store).Val
+	for {
+		switch x := v.(type) {
+		case *ssa.MakeInterface:
+			v = x.X
+			continue
+		case *ssa.ChangeInterface:
+			v = x.X
+			continue
+		}
+		break
+	}
+	al, _ := v.(*ssa.Alloc)
+	return al
+}
+
+// kindError classifies &T{…} for a type whose Is method compares one field (kindIsField): it
+// matches exactly the sentinels of type *T that carry the same value in that field.  The
+// allocation a sentinel is declared with is that sentinel (a fresh value); another value with
+// a sentinel's kind is a wrapper of that sentinel as far as errors.Is goes; a kind no sentinel
+// has matches none of them.
+func (a *Analysis) kindError(al *ssa.Alloc, n *types.Named, ms *types.MethodSet) (errClass, bool) {
+	f, ok := a.kindIsField(n, ms)
+	if !ok {
+		return errClass{}, false
+	}
+	k, ok := allocField(al, f)
+	if !ok {
+		return errClass{}, false
+	}
+	var same []*ssa.Global
+	own := false
+	for _, name := range []string{"ErrWordLen", "ErrEntropyLen", "ErrChecksumIncorrect"} {
+		g := a.sentinel(name)
+		if g == nil {
+			continue
+		}
+		sal := a.sentinelAlloc(g)
+		if sal == nil {
+			continue
+		}
+		if pt, ok := sal.Type().Underlying().(*types.Pointer); !ok || !types.Identical(pt.Elem(), n) {
+			continue
+		}
+		if sk, ok := allocField(sal, f); ok && sk == k {
+			same = append(same, g)
+			if sal == al {
+				own = true
+			}
+		}
+	}
+	desc := fmt.Sprintf("&%s{…} with %s = %d (errors.Is compares that field)", n.Obj().Name(), n.Underlying().(*types.Struct).Field(f).Name(), k)
+	switch {
+	case own && len(same) == 1:
+		return errClass{Kind: "fresh", Desc: desc}, true
+	case own:
+		return errClass{Kind: "other", Desc: desc + ": another sentinel carries the same value, they match each other"}, true
+	case len(same) == 1:
+		return errClass{Kind: "wrap", G: same[0], Desc: desc + ", the kind of " + same[0].Name()}, true
+	case len(same) == 0:
+		return errClass{Kind: "fresh", Desc: desc + ", the kind of no sentinel"}, true
+	}
+	return errClass{Kind: "other", Desc: desc}, true
+}
+
 func (a *Analysis) ruleS1() {
 	r := a.R
 	seen := map[*ssa.Global]bool{}
@@ -260,6 +488,12 @@ type gateSpec struct {
 	strResult     bool          // first result is a string that must be "" on reject exits
 	kind          string        // context kind of the subject: "L", "W" or "N"
 	entry         *ssa.Function // function to evaluate for feasibility questions (default fn)
+	// emptyIn: string values of fn that are empty exactly when the tokeniser's input is empty
+	// (that input and, if it is NFKD of x, x); emptyN is the subject's value then (len of the
+	// tokens of the empty string).  An exit taken on `x == ""` before the subject is computed
+	// is an exit reached with that one subject value.
+	emptyIn map[ssa.Value]bool
+	emptyN  int64
 }
 
 // semanticPredicate classifies helper f(x int) → (…, bool | error) by abstract evaluation on a
@@ -558,7 +792,15 @@ func (a *Analysis) ruleGates() {
 				lo = 1
 			}
 			res := AnalyseGate(gateFn, subj, defBlock, ZRange(lo, maxLen), bits, a.gateTables, a.isModuleFunc)
-			a.Gate3 = a.checkGate(gateSpec{rule: "G3", fn: gateFn, entry: a.CM, what: "len(tokens)", spec: specWordCounts(), sentinel: "ErrWordLen", allowLateFail: true, kind: "N"}, res)
+			g3 := gateSpec{rule: "G3", fn: gateFn, entry: a.CM, what: "len(tokens)", spec: specWordCounts(), sentinel: "ErrWordLen", allowLateFail: true, kind: "N"}
+			if gateFn == tokFn {
+				g3.emptyIn = map[ssa.Value]bool{tok.Call.Args[0]: true}
+				g3.emptyN = lo // strings.Split("", sep) has one element, strings.Fields("") none
+				if c, ok := tok.Call.Args[0].(*ssa.Call); ok && len(c.Call.Args) > 0 && isNFKDCall(c, c.Call.Args[len(c.Call.Args)-1]) {
+					g3.emptyIn[c.Call.Args[len(c.Call.Args)-1]] = true
+				}
+			}
+			a.Gate3 = a.checkGate(g3, res)
 		}
 	}
 	n := 0
@@ -577,6 +819,48 @@ func (a *Analysis) ruleGates() {
 func (a *Analysis) isLang(t types.Type) bool {
 	n, ok := t.(*types.Named)
 	return ok && a.G.LangType != nil && types.Identical(n, a.G.LangType)
+}
+
+// underEmptyInput: block b is only reached over an edge on which one of the values in vals
+// is the empty string (`x == ""`, `len(x) == 0`, `len(x) < 1`, `len(x) <= 0` and their negations
+// on the other edge).
+func (a *Analysis) underEmptyInput(b *ssa.BasicBlock, vals map[ssa.Value]bool) bool {
+	ev := &Eval{P: a.P}
+	for _, ce := range ev.ctrlEdges(b) {
+		cv := ce.If.Cond
+		hold := ce.Taken
+		for {
+			u, ok := cv.(*ssa.UnOp)
+			if !ok || u.Op != token.NOT {
+				break
+			}
+			hold = !hold
+			cv = u.X
+		}
+		bo, ok := cv.(*ssa.BinOp)
+		if !ok {
+			continue
+		}
+		op := bo.Op
+		if !hold {
+			op = negOp(op)
+		}
+		x, y := bo.X, bo.Y
+		if _, isC := x.(*ssa.Const); isC {
+			x, y, op = y, x, flipOp(op)
+		}
+		if s, isC := strConst(y); isC && s == "" && vals[x] && op == token.EQL {
+			return true
+		}
+		if k, isC := intConst(y); isC {
+			if base := lenOperand(x); base != nil && vals[base] {
+				if (k == 0 && (op == token.EQL || op == token.LEQ)) || (k == 1 && op == token.LSS) {
+					return true
+				}
+			}
+		}
+	}
+	return false
 }
 
 func (a *Analysis) checkGate(gs gateSpec, res *GateResult) *GateInfo {
@@ -599,7 +883,10 @@ func (a *Analysis) checkGate(gs gateSpec, res *GateResult) *GateInfo {
 		errv := returnedValue(ret, len(ret.Results)-1) // sees through `*cell = v; rundefers; return *cell`
 		isNil := isNilConst(errv)
 		key := fmt.Sprintf("%s/exit@block%s", fk, exitLabel(ret))
-		if res.Pre[b] {
+		if res.Pre[b] && len(gs.emptyIn) > 0 && a.underEmptyInput(b, gs.emptyIn) {
+			reach, reached = ZOf(gs.emptyN), true
+			r.OK(gs.rule, key+"/empty-input", rp, "", "taken only when the input is the empty string, i.e. with %s = %d", gs.what, gs.emptyN)
+		} else if res.Pre[b] {
 			r.Bad(gs.rule, key, rp, "", "%s can return before %s is examined", fk, gs.what)
 			continue
 		}
@@ -641,6 +928,12 @@ func (a *Analysis) checkGate(gs gateSpec, res *GateResult) *GateInfo {
 						delegated = true
 					}
 				}
+			}
+		}
+		if c, ok := errv.(*ssa.Call); ok && !gs.strResult {
+			// `return helper(…)` with a single error result: the outcome is the helper's
+			if callee := c.Call.StaticCallee(); callee != nil && callee.Pkg != nil && a.P.InModule(callee.Pkg) && callee != gs.fn && len(callee.Blocks) > 0 {
+				delegated = true
 			}
 		}
 		switch {
